@@ -192,8 +192,8 @@ pub fn run(g: &mut Global) {
         },
         &check,
     );
-    g.random("random", g.tier.pick(40000, 200000), &|| strategy(1, 400), &check);
-    let (lo, hi, cnt) = g.tier.pick((2000usize, 5000usize, 160u32), (20000usize, 50000usize, 320u32));
+    g.random("random", g.tier.pick(40000, 1000000), &|| strategy(1, 400), &check);
+    let (lo, hi, cnt) = g.tier.pick((2000usize, 5000usize, 160u32), (20000usize, 50000usize, 1600u32));
     g.random("long", cnt, &move || strategy(lo, hi), &check);
     if g.tier == Tier::Thorough {
         g.fuzz_stage("ops_pred", Some(0), 600_000, "random", &|b| crate::fuzzdec::decode_c07(b), &check);
